@@ -803,7 +803,7 @@ class HModel:
             o[f"h[{i if i not in (n, -n - 1) else ('len' if i == n else '-len-1')}]"] = \
                 ("ok", norm(self.l[i])) if -n <= i < n else ("exc", "IndexError")
         for nm, sl in (("0:1", (0, 1, None)), ("1:", (1, None, None)), ("::-1", (None, None, -1)),
-                       ("-2:", (-2, None, None))):
+                       ("-2:", (-2, None, None)), (":", (None, None, None))):
             o[f"h[{nm}]"] = ("ok", norm(HVal(self.typename, self.l[slice(*sl)])))
         o["len"] = ("ok", n)
         o["bool"] = ("ok", n > 0)
@@ -835,7 +835,7 @@ def h_obs_real(h):
     for i in (0, 1, -1, n, -n - 1):
         o[f"h[{i if i not in (n, -n - 1) else ('len' if i == n else '-len-1')}]"] = outcome(lambda: h[i])
     for nm, sl in (("0:1", (0, 1, None)), ("1:", (1, None, None)), ("::-1", (None, None, -1)),
-                   ("-2:", (-2, None, None))):
+                   ("-2:", (-2, None, None)), (":", (None, None, None))):
         o[f"h[{nm}]"] = outcome(lambda: h[slice(*sl)])
     o["len"] = outcome(lambda: len(h))
     o["bool"] = outcome(lambda: bool(h))
@@ -1013,7 +1013,7 @@ class HFamily:
         light_want = ("ok", norm(list(model.l)))
         clones = [("copy", lambda d: d.copy())]
         if full:
-            clones += [("copy", lambda d: copy.copy(d)),
+            clones += [("copy", lambda d: copy.copy(d)), ("slice", lambda d: d[:]), ("slice", lambda d: d[0:len(d)]),
                        ("deepcopy", lambda d: copy.deepcopy(d)), ("ctor", lambda d: type(d)(d))]
             for p in range(pickle.HIGHEST_PROTOCOL + 1):
                 clones.append(("pickle", lambda d, p=p: pickle.loads(pickle.dumps(d, p))))
@@ -2157,6 +2157,12 @@ def check_targeted():
         if got != exp:
             fails.append((f"targeted.{name}", {"targeted": name}, f"{got!r}", f"{exp!r}"))
 
+    def section(name, f):
+        try:
+            f()
+        except Exception as e:  # noqa: BLE001
+            fails.append((f"targeted.{name}", {"targeted": name}, f"raised {type(e).__name__}: {e}", "no exception"))
+
     def exc_type(f):
         try:
             f()
@@ -2173,52 +2179,64 @@ def check_targeted():
         et = exc_type(f)
         t(f"badrequestkeyerror.{nm}", et is not None and issubclass(et, BadRequestKeyError) and issubclass(et, KeyError), True)
 
-    # deep copy copies values, shallow copy shares them
-    for cls in (MultiDict, ImmutableMultiDict, FileMultiDict):
-        v1, v2 = [1], [2]
-        d = cls([("a", v1), ("a", v2), ("b", v1)])
-        for nm, dc in (("deepcopy()", d.deepcopy()), ("copy.deepcopy", copy.deepcopy(d))):
-            vals = dc.getlist("a")
-            t(f"deepcopy_values.{cls.__name__}.{nm}", (vals, vals[0] is not v1, type(dc) is cls), ([[1], [2]], True, True))
-            vals[0].append(9)
-            t(f"deepcopy_independent.{cls.__name__}.{nm}", (v1, d.getlist("a")), ([1], [[1], [2]]))
-            t(f"deepcopy_memo.{cls.__name__}.{nm}", dc.getlist("b")[0] is dc.getlist("a")[0], True)
-        sh = d.copy()
-        t(f"shallow_copy_shares_values.{cls.__name__}", sh.getlist("a")[0] is v1, True)
-    h = Headers([("a", "1")])
-    t("headers.deepcopy", (list(copy.deepcopy(h)), type(copy.deepcopy(h))), ([("a", "1")], Headers))
+    def _s0():
+        # deep copy copies values, shallow copy shares them
+        for cls in (MultiDict, ImmutableMultiDict, FileMultiDict):
+            v1, v2 = [1], [2]
+            d = cls([("a", v1), ("a", v2), ("b", v1)])
+            for nm, dc in (("deepcopy()", d.deepcopy()), ("copy.deepcopy", copy.deepcopy(d))):
+                vals = dc.getlist("a")
+                t(f"deepcopy_values.{cls.__name__}.{nm}", (vals, vals[0] is not v1, type(dc) is cls), ([[1], [2]], True, True))
+                vals[0].append(9)
+                t(f"deepcopy_independent.{cls.__name__}.{nm}", (v1, d.getlist("a")), ([1], [[1], [2]]))
+                t(f"deepcopy_memo.{cls.__name__}.{nm}", dc.getlist("b")[0] is dc.getlist("a")[0], True)
+            sh = d.copy()
+            t(f"shallow_copy_shares_values.{cls.__name__}", sh.getlist("a")[0] is v1, True)
+        h = Headers([("a", "1")])
+        t("headers.deepcopy", (list(copy.deepcopy(h)), type(copy.deepcopy(h))), ([("a", "1")], Headers))
 
-    # constructor / update / setlist copy the caller's lists
-    lst = ["1", "x"]
-    d = MultiDict({"a": lst})
-    lst.append("Z")
-    t("ctor_copies_lists.dict", d.getlist("a"), ["1", "x"])
-    src = MultiDict([("a", "1")])
-    d = MultiDict(src)
-    src.add("a", "Z")
-    d.add("a", "Y")
-    t("ctor_copies_lists.multidict", (d.getlist("a"), src.getlist("a")), (["1", "Y"], ["1", "Z"]))
-    d = MultiDict()
-    d.update(src)
-    src.add("a", "W")
-    t("update_copies", d.getlist("a"), ["1", "Z"])
-    hsrc = Headers([("a", "1")])
-    hh = Headers(hsrc)
-    hsrc.add("a", "2")
-    hh.add("b", "3")
-    t("headers_ctor_independent", (list(hh), list(hsrc)), ([("a", "1"), ("b", "3")], [("a", "1"), ("a", "2")]))
+    section('deepcopy', _s0)
 
-    # TypeConversionDict.get
-    tc = TypeConversionDict(foo="42", bar="blub", n=None)
-    t("typeconversiondict", (tc.get("foo", type=int), tc.get("bar", -1, type=int), tc.get("bar", type=int),
-                             tc.get("zz", "D"), tc.get("foo"), tc.get("n", "D", type=int)), (42, -1, None, "D", "42", "D"))
-    itc = ImmutableTypeConversionDict(foo="42")
-    t("immutabletypeconversiondict", (itc.get("foo", type=int), type(itc.copy()), copy.copy(itc) is itc),
-      (42, TypeConversionDict, True))
+    def _s1():
+        # constructor / update / setlist copy the caller's lists
+        lst = ["1", "x"]
+        d = MultiDict({"a": lst})
+        lst.append("Z")
+        t("ctor_copies_lists.dict", d.getlist("a"), ["1", "x"])
+        src = MultiDict([("a", "1")])
+        d = MultiDict(src)
+        src.add("a", "Z")
+        d.add("a", "Y")
+        t("ctor_copies_lists.multidict", (d.getlist("a"), src.getlist("a")), (["1", "Y"], ["1", "Z"]))
+        d = MultiDict()
+        d.update(src)
+        src.add("a", "W")
+        t("update_copies", d.getlist("a"), ["1", "Z"])
+        hsrc = Headers([("a", "1")])
+        hh = Headers(hsrc)
+        hsrc.add("a", "2")
+        hh.add("b", "3")
+        t("headers_ctor_independent", (list(hh), list(hsrc)), ([("a", "1"), ("b", "3")], [("a", "1"), ("a", "2")]))
 
-    # dict(md) gives first values (documented in __iter__ comment / to_dict)
-    d = MultiDict([("a", "1"), ("a", "2"), ("b", "3")])
-    t("dict_of_multidict", dict(d), {"a": "1", "b": "3"})
+    section('ctor_copies_lists', _s1)
+
+    def _s2():
+        # TypeConversionDict.get
+        tc = TypeConversionDict(foo="42", bar="blub", n=None)
+        t("typeconversiondict", (tc.get("foo", type=int), tc.get("bar", -1, type=int), tc.get("bar", type=int),
+                                 tc.get("zz", "D"), tc.get("foo"), tc.get("n", "D", type=int)), (42, -1, None, "D", "42", "D"))
+        itc = ImmutableTypeConversionDict(foo="42")
+        t("immutabletypeconversiondict", (itc.get("foo", type=int), type(itc.copy()), copy.copy(itc) is itc),
+          (42, TypeConversionDict, True))
+
+    section('typeconversiondict', _s2)
+
+    def _s3():
+        # dict(md) gives first values (documented in __iter__ comment / to_dict)
+        d = MultiDict([("a", "1"), ("a", "2"), ("b", "3")])
+        t("dict_of_multidict", dict(d), {"a": "1", "b": "3"})
+
+    section('dict_of_multidict', _s3)
 
     # FileMultiDict.add_file
     tmp = tempfile.mkdtemp()
@@ -2337,8 +2355,8 @@ PLAN = {
               ("filemultidict", "md_full", 2), ("headers", "h_full", 2), ("headers", "h_core", 3),
               ("combined", "c", 3), ("environ_headers", "e", 3)],
     "thorough": [("headerset", "hs", 7), ("multidict", "md_full", 4), ("multidict", "md_keys3", 3),
-                 ("multidict", "md_core", 5), ("filemultidict", "md_full", 3), ("headers", "h_full", 3),
-                 ("headers", "h_core", 4), ("combined", "c", 4), ("environ_headers", "e", 4)],
+                 ("multidict", "md_core", 6), ("filemultidict", "md_full", 3), ("headers", "h_full", 3),
+                 ("headers", "h_core", 5), ("combined", "c", 4), ("environ_headers", "e", 4)],
 }
 RANDOM = [("multidict", "md_keys3"), ("filemultidict", "md_full"), ("headers", "h_full"), ("headerset", "hs"),
           ("combined", "c"), ("environ_headers", "e")]
@@ -2359,7 +2377,7 @@ def run(tier, seed, reg=None):
         "freshness of returned lists; immutable variants: every mutator of dict/list/MultiDict/Headers on "
         "ImmutableMultiDict/ImmutableDict/ImmutableTypeConversionDict/ImmutableList/CombinedMultiDict/EnvironHeaders; "
         "FileMultiDict.add_file forms"
-        + ("" if tier == "quick" else "; plus 300 seeded random histories of length 25 per family")
+        + ("" if tier == "quick" else "; plus 960 seeded random histories of length 30 per family (reads after every step, clones at the end)")
     )
     col = Collector(RULE, domain, max_failures=120)
     fails = []
@@ -2381,7 +2399,7 @@ def run(tier, seed, reg=None):
                     col.samples.append({"check": f"{fname}.history", "input": common._j(
                         {"family": fname, "ctor": cid, "history": [list(o) for o in hist]})})
         if tier != "quick":
-            tasks = [(f, o, seed, b, 50, 25) for f, o in RANDOM for b in range(6)]
+            tasks = [(f, o, seed, b, 60, 30) for f, o in RANDOM for b in range(16)]
             for nev, fs in pool.imap_unordered(_rand_task, tasks):
                 col.evaluations += nev
                 nstates += nev
